@@ -909,3 +909,46 @@ def adapter_column_ids(ctx) -> None:
     ctx.ob("STEP-adapter", "ids are the register's", g.loc(), bad is None,
            "the drive columns are laid out for sequence.register.qubit_ids" if bad is None else
            f"{bad}: not sequence.register.qubit_ids — the drive columns follow another order than the register")
+
+
+def custom_interaction_matrix(ctx) -> None:
+    """PulserData.__init__ stores the user's interaction matrix exactly when one is configured (and has checked its size
+    against the register); otherwise None, which get_sequences reads as "use the trajectory's register matrix"."""
+    from .adapter import _run, PA
+    g, gp = _run(ctx, PA + "PulserData.__init__", cls=PA + "PulserData", loop_iters=(1,))
+    cfg = ("param", g.qualname, "config")
+    cim = ("attr", cfg, "interaction_matrix")
+    seen = set()
+    bad = None
+    for p in gp:
+        if p.status != "return":
+            continue
+        given = None
+        sized = False
+        for c, t in p.cond_log:
+            c0 = strip_typed(c)
+            if c0[0] == "cmp" and c0[1] in ("is", "isnot") and strip_typed(c0[2]) == cim and strip_typed(c0[3]) == ("const", None):
+                given = (not t) if c0[1] == "is" else t
+            if c0[0] == "cmp" and c0[1] == "==" and t:
+                sides = [strip_typed(c0[2]), strip_typed(c0[3])]
+                lens = [x for x in sides if x[0] == "call" and x[1] == "len" and len(x[2]) == 1 and strip_typed(x[2][0]) == cim]
+                other = [x for x in sides if x not in lens]
+                if lens and other and ("qubit_ids" in show(other[0]) or "qubit_count" in show(other[0])):
+                    sized = True
+        v = strip_typed(p.heap.get((SELF, "full_interaction_matrix"), ("const", "<unset>")))
+        seen.add(given)
+        if given is True:
+            ok = v[0] == "mcall" and strip_typed(v[1]) == cim and v[2] == "as_tensor"
+            if not ok:
+                bad = f"with a configured interaction matrix, full_interaction_matrix = {show(v)[:40]}"
+            elif not sized:
+                bad = "the configured matrix is stored without the size test against the register"
+        elif given is False:
+            if v != ("const", None):
+                bad = f"without a configured interaction matrix, full_interaction_matrix = {show(v)[:40]}"
+        else:
+            bad = "a constructing path never consults config.interaction_matrix"
+    ctx.require(seen >= {True, False} or bad, "INTERACT: PulserData.__init__ paths with and without a configured matrix not found")
+    ctx.ob("INTERACT", "configured matrix stored", g.loc(), bad is None,
+           "full_interaction_matrix = config.interaction_matrix.as_tensor() (size checked) when configured, None otherwise"
+           if bad is None else f"PulserData.__init__: {bad}: the user's interaction matrix is ignored or invented")
